@@ -13,6 +13,7 @@ import (
 	"io"
 	"net/http"
 	"net/http/httptest"
+	"net/url"
 	"os"
 	"sort"
 	"strings"
@@ -1462,9 +1463,12 @@ func (r *runner) step(step int, op Op, before [2]*lakeState) *vt.Failure {
 				return fail(sigRemoveBranch, "step %d: RemoveBranch(%s@%s) succeeds directly but the remote lake returns %q (the service has DELETE /pool/{pool}/branch/{branch})", step, p.name, branch, e1)
 			}
 			r.o.Known = append(r.o.Known, sigRemoveBranch)
-			req := r.conn.NewRequest(ctx, http.MethodDelete, "/pool/"+p.id[1].String()+"/branch/"+branch, nil)
+			req := r.conn.NewRequest(ctx, http.MethodDelete, "/pool/"+p.id[1].String()+"/branch/"+url.PathEscape(branch), nil)
 			resp, err := r.conn.Do(req)
 			if err != nil {
+				if f := r.plusSign(step, "dropbranch", err); f != nil || r.abandon != "" {
+					return f
+				}
 				return fail("C19/remove-branch/route-fails", "step %d: DELETE /pool/{id}/branch/%s fails although direct RemoveBranch succeeded: %v", step, branch, err)
 			}
 			resp.Body.Close()
